@@ -4403,6 +4403,8 @@ def _match__inside_list_quantifier(
         Adding to matches means either adding the successful match dictionary to `tagss` or creating an `FSTMatch`
         object and adding it to a dedicated match list which is in `tagss` as its own dictionary with key `pat_tag`."""
 
+        start_idx = tgt_iter.idx  # where this iteration of the quantifier pattern starts in the target, needed for greedy step back because a sublist iteration can consume any number of targets
+
         if is_qpat_list:
             qpat_iter.idx = 0  # reset quantifier list pattern to start since _match__inside_list() doesn't reset it on success
             tgt_idx = tgt_iter.idx
@@ -4438,12 +4440,14 @@ def _match__inside_list_quantifier(
                 m = FSTMatch(q_pat, t, m)
 
         matches.insert(matches_ins_idx, m)
+        starts.append(start_idx)
 
         return True
 
     # setup
 
     tagss = mstate.new_tagss()
+    starts = []  # target index at the start of each successful quantifier iteration
 
     tgt_idx_saved = tgt_iter.idx
     tgt_seq = tgt_iter.seq
@@ -4519,7 +4523,7 @@ def _match__inside_list_quantifier(
         if greedy:  # if greedy then we are removing previous matches to try again one position to the left
             del matches[matches_del_idx]  # if there are static_tags then we are deleting the dictionary before those
 
-            tgt_iter.idx -= 1  # step back 1
+            tgt_iter.idx = starts.pop()  # step back to where the last quantifier iteration started (1 element for a single pattern, whatever the sublist consumed otherwise)
             count -= 1
 
         else:  # if non-greedy then we are attempting to match our pattern one position to the right and if successful then try match shorter list
